@@ -81,11 +81,11 @@ struct Override {
     uint32_t k;
     int32_t val;
 };
-constexpr int MAX_OV = 1 << 15;
+constexpr int MAX_OV = 1 << 20;  // (lr.many records ~150 000 decisions per run)
 static Override g_ov[MAX_OV];
 static int g_nov = 0;
 static bool g_ov_overflow = false;
-constexpr int OVH = 1 << 16;
+constexpr int OVH = 1 << 21;
 static int32_t g_ovh[OVH];  // replay lookup: index+1
 
 static inline uint32_t ov_hash(int tid, int kind, uint32_t k)
